@@ -1555,7 +1555,7 @@ func main() {
 		}
 	}
 
-	depth, nRandom, maxLen, budget, twoUntil, faultDepth := 4, 500, 16, 1000, 2, 3
+	depth, nRandom, maxLen, budget, twoUntil, faultDepth := 4, 400, 16, 600, 2, 3
 	if a.Tier == "thorough" {
 		depth, nRandom, maxLen, budget, twoUntil, faultDepth = 4, 4000, 24, 8000, 3, 4
 	}
